@@ -104,26 +104,44 @@ func newRand(seed int64) *rand.Rand { return rand.New(rand.NewSource(seed)) }
 
 // ---- projection: real Elvish value -> abstract value
 
+// keyPool fixes the canonical order of non-numeric map keys in the abstract form (Key.I = position).
+// Several alphabets, so that added keys land before, between and after the existing entries of a
+// hash-trie node.
+var keyPool = func() []string {
+	p := []string{"k", "m", "n", "o", "a", "b", "c", "d", "e", "f", "g", "h", "i", "j", "l", "p", "q", "r", "s", "t", "u", "v", "w", "z",
+		"foo", "bar", "lorem", "ipsum", "dolor", "sit", "amet", "baz", "qux"}
+	for i := 1; i <= 24; i++ {
+		p = append(p, fmt.Sprintf("x%d", i))
+	}
+	for i := 1; i <= 24; i++ {
+		p = append(p, fmt.Sprintf("key%d", i))
+	}
+	return p
+}()
+
+var keyRank = func() map[string]int {
+	m := map[string]int{}
+	for i, s := range keyPool {
+		m[s] = i + 1
+	}
+	return m
+}()
+
 func keyOf(s string) Key {
 	if i, err := strconv.Atoi(s); err == nil && strconv.Itoa(i) == s {
 		return Key{S: s, I: i, Num: true}
 	}
-	return Key{S: s}
+	if r, ok := keyRank[s]; ok {
+		return Key{S: s, I: r}
+	}
+	return Key{S: s, I: 900}
 }
 
 func rank(k Key) int {
 	if k.Num {
 		return 1000 + k.I
 	}
-	switch k.S {
-	case "k":
-		return 1
-	case "m":
-		return 2
-	case "n":
-		return 3
-	}
-	return 9
+	return k.I
 }
 
 func project(v any) Val {
@@ -538,6 +556,90 @@ func randomOps(r *rand.Rand, run *runner, kind string, length int, record func(O
 		}
 		record(o)
 	}
+}
+
+// growOps: maps grown key by key (`set m[newkey] = v` ADDING keys, the map at the top, inside a list,
+// inside a map), an alias of (almost) every version taken on the way, every alias re-read after
+// every step.  Keys come from one of several alphabets in random order; growth goes past 16 keys
+// (bitmap node -> array node).  Now and then an existing key is replaced or deleted.
+func growOps(r *rand.Rand, run *runner, where []Key, x string, alphabet []string, record func(Op)) {
+	names := 0
+	order := r.Perm(len(alphabet))
+	blank := func() Op {
+		return Op{X: x, P: []Key{}, P2: []Key{}, V: VDesc{Src: "atom"}, V2: VDesc{Src: "atom"}}
+	}
+	take := func() {
+		if len(run.aliases) >= 22 {
+			return
+		}
+		o := blank()
+		names++
+		o.Op, o.Name = "TakeAlias", fmt.Sprintf("g%d", names)
+		o.Kind = []string{"var", "var", "closure", "output", "share", "sub"}[r.Intn(6)]
+		if o.Kind == "sub" {
+			if len(where) == 0 {
+				o.Kind = "var"
+			} else {
+				o.P = append([]Key{}, where...)
+			}
+		}
+		record(o)
+	}
+	take()
+	for n, oi := range order {
+		o := blank()
+		o.Op, o.P = "SetElem", append(append([]Key{}, where...), keyOf(alphabet[oi]))
+		o.V = VDesc{Src: "atom", N: 100 + n}
+		record(o)
+		if r.Intn(5) != 0 {
+			take()
+		}
+		if n > 0 && r.Intn(6) == 0 { // replace or delete a key added earlier
+			o := blank()
+			o.P = append(append([]Key{}, where...), keyOf(alphabet[order[r.Intn(n)]]))
+			if r.Intn(2) == 0 {
+				o.Op, o.V = "SetElem", VDesc{Src: "atom", N: 500 + n}
+			} else {
+				o.Op = "DelElem"
+			}
+			record(o)
+		}
+	}
+}
+
+var alphabets = [][]string{
+	{"a", "b", "c", "d", "e", "f", "g", "h", "i", "j", "l", "p", "q", "r", "s", "t", "u", "v", "w", "z"},
+	{"foo", "bar", "lorem", "ipsum", "dolor", "sit", "amet", "baz", "qux", "a", "b", "x1", "x2", "k", "z", "key1", "key2", "w", "e", "0", "1"},
+	{"x1", "x2", "x3", "x4", "x5", "x6", "x7", "x8", "x9", "x10", "x11", "x12", "x13", "x14", "x15", "x16", "x17", "x18", "x19", "x20"},
+	{"key1", "key2", "key3", "key4", "key5", "key6", "key7", "key8", "key9", "key10", "key11", "key12", "key13", "key14", "key15", "key16", "key17", "key18"},
+	{"a", "b", "foo", "lorem", "x1", "k", "c", "bar", "x2", "d", "ipsum", "x3", "e", "key1", "f", "g", "h", "key2", "i"},
+}
+
+// growHistory: variant selects where the growing map lives and how many keys it starts with.
+func growHistory(c *lib.Ctx, r *rand.Rand, variant int) []Event {
+	m0 := []string{"[&m=(num 1) &n=(num 2) &o=(num 3)]", "[&]", "[&m=(num 1) &n=(num 2) &o=(num 3) &p=(num 4) &q=(num 5)]", "[&a=(num 1) &b=(num 2) &c=(num 3)]"}[variant%4]
+	var init, x string
+	var where []Key
+	switch (variant / 4) % 3 {
+	case 0:
+		init, x, where = "var x = "+m0+"\nvar y = [(num 7) "+m0+"]\n", "x", []Key{}
+	case 1:
+		init, x, where = "var x = [(num 7) "+m0+" "+m0+"]\nvar y = "+m0+"\n", "x", []Key{keyOf("1")}
+	default:
+		init, x, where = "var x = (num 5)\nvar y = [&k="+m0+" &m=[(num 1) "+m0+"]]\n", "y", []Key{keyOf("k")}
+	}
+	alphabet := alphabets[r.Intn(len(alphabets))]
+	var keep []string
+	for _, a := range alphabet { // keys already in the literal are replaced, not added: leave a few in
+		if !strings.Contains(m0, "&"+a+"=") || r.Intn(3) == 0 {
+			keep = append(keep, a)
+		}
+	}
+	run := newRunner(init)
+	evs := []Event{{O: Op{Op: "Reset", P: []Key{}, P2: []Key{}, V: VDesc{Src: "atom"}, V2: VDesc{Src: "atom"}}, Mid: errVal, Store: run.store(), Al: []Val{}}}
+	growOps(r, run, where, x, keep, func(o Op) { evs = append(evs, step(c, run, o)) })
+	c.AddEvals(run.evals)
+	return evs
 }
 
 func randomHistory(c *lib.Ctx, r *rand.Rand, kind string, length int) []Event {
